@@ -59,15 +59,26 @@ def _work(args):
             out['lines'] += len(rp.log)
             if out['sample'] is None and behs:
                 out['sample'] = {'binding': name, 'variant': vtag, 'behaviour': behs[len(behs) // 2]}
-            first = {}
-            for line, clause in verdict:          # only the first deviating call of a behaviour is reported:
-                bi = rp.where[line - 1][0]        # later clashes in the same behaviour may be its echoes
-                first[bi] = min(first.get(bi, line), line)
+            # Per behaviour the first call with a clause relevant to this property is reported.  Calls after
+            # it may only echo it.  A call that deviates in a way that is not this property's business but can
+            # derail the specification state this property's clauses depend on (ECHO_SOURCES of the property
+            # module, e.g. a life-cycle mismatch for the RNG clauses) ends the examination of that behaviour.
+            echo = getattr(importlib.import_module(relmod), 'ECHO_SOURCES', ())
+            closed = {}
+            bylines = {}
             for line, clause in verdict:
+                bylines.setdefault(line, []).append(clause)
+            for line in sorted(bylines):
                 bi, ei, shape = rp.where[line - 1]
-                if first[bi] != line:
+                if closed.get(bi):
                     continue
-                if rel(clause, shape):
+                relc = [c for c in bylines[line] if rel(c, shape)]
+                if not relc:
+                    if any(c in echo for c in bylines[line]):
+                        closed[bi] = True
+                    continue
+                closed[bi] = True
+                for clause in relc:
                     out['viol'].append({'clause': clause, 'shape': shape, 'behaviour': behs[bi], 'event_index': ei,
                                         'logged': rp.log[line - 1], 'variant': vtag, 'binding': name})
         finally:
